@@ -301,6 +301,23 @@ def run(chk):
     chk.rule("C04-D7.dispatch", "every switch(effective_rule) instantiates, in each case, the templates for the rule of that case: all routes of one grid use the same hierarchy and basis")
     ndsp = dispatch.dispatch_rule(chk, db, "C04-D7.dispatch")
     chk.floor("C04-D7.dispatch", ndsp, 15, "rule-dispatch switches")
+    from rules import complete
+    nc8 = complete.complete_rule(chk, db, "C04-D8.complete")       # evaluate() (surpluses) and weights . values (no surpluses) part ways when the flag is wrong
+    chk.floor("C04-D8.complete", nc8, 5, "fallback loops in computeDAGup (instantiations)")
+    # differentiate() and getDifferentiationWeights() apply the chain rule of the domain transform separately: both must scale the entry of dimension j by the factor of dimension j
+    chk.rule("C04-D9.chain", "the two routes to a derivative under a domain transform (differentiate, differentiation weights) apply the factor of dimension j to the entries of dimension j "
+                             "with the documented layout (obligations of C10-D4)")
+    from rules import c10
+    from tsg.report import Check as _Check
+    sub10 = _Check("C10", chk.tier, chk.seed)
+    c10.run(sub10)
+    chk.absorb(sub10)
+    nch = 0
+    for o in sub10.obls:
+        if o["rule"] == "C10-D4.chain":
+            nch += 1
+            chk.ob("C04-D9.chain", o["function"], o["construct"], o["ok"], o["where"], o["detail"], o["expected"])
+    chk.floor("C04-D9.chain", nch, 2, "chain-rule scaling sites shared with C10")
 
     return ("Static rule discharge: closed forms of the local bases (partial evaluation) give the support identities and the exact basis integrals; the sparse/dense builders are siblings of "
             "one tree walk; coefficient overwrites recompute the stored values on every path; block partitions are evaluated as closed forms over batch sizes; the evaluation tree is rebuilt "
